@@ -10,7 +10,7 @@ from harness.engines import sched
 META = {
     "engine": "Sched",
     "category": "proof",
-    "design_ref": "§6 C15, §5.5",
+    "design_ref": "§6 C15, §5.5, D71",
     "technique": "Lean 4 invariant proof by induction over rounds of the scheduling loop for all schedules + controlled-worker differential correspondence",
     "text": "Lean theorems for every sortable workflow graph, any number of nodes and jobs per node (job lists built at start() "
     "from upstream values, shared checksums allowed), every max_concurrent, every schedule of environment moves (body starts, "
@@ -21,14 +21,27 @@ META = {
     "which always ends (C17_sync_terminates); C15_precedence_interleaved is C15_precedence for the finer semantics in which bodies start, "
     "finish and fail before every node.done / p.done read of a poll.  Documentation witnesses: the synchronous loop hands out the jobs beyond "
     "max_concurrent on the next poll (C15_sync_hands_out_cut_jobs), a get_runnable_tasks that returned only newly runnable jobs would "
-    "lose them and spin forever (C15_new_only_loses_jobs). "
+    "lose them and spin forever (C15_new_only_loses_jobs).  PRE-EXISTING RESULTS (Sched/Rerun.lean: the cache_root may hold "
+    "successful or errored results at submission, readonly caches, the rerun flag with Job.run's semantics, job.done answered "
+    "from the disk, old and new values distinguished): without rerun over a cache of successful results the precedence "
+    "statement holds in full and cached jobs are never executed (C15_precedence_cached); with rerun=True it holds in the form "
+    "'a body starts only after the bodies of all jobs of all predecessor nodes have ended IN THIS SUBMISSION', together with "
+    "'every job is re-executed and every output is a value of this submission', for the synchronous loop without a "
+    "max_concurrent limit (C15_rerun_sync_unlimited) - and NOT otherwise: known finding D71 (a queued job's pre-existing "
+    "result is taken as its outcome), computed for the model as C15_rerun_cut_job_keeps_old_result, "
+    "C15_errored_result_not_retried, C15_rerun_stale_read_race, C15_rerun_readonly_stale_read and replayed on the real code.  "
+    "Two-pass cases (first submission, then a second one with rerun / after failures / over a readonly cache; bodies stamp an "
+    "externally stored generation into their values) are judged by an independent oracle on the body log and the outputs "
+    "(which bodies run, start order against the ends of this submission, generation of every value). "
     "The model is tied to pydra/engine/submitter.py by running generated workflows under a controlled subclass of the "
     "ConcurrentFuturesWorker (real process pool, real lock files) while an in-loop controller plays seeded adversarial "
     "schedules, and comparing per loop iteration the runnable tasks, the dispatches, the pending futures and the NodeExecution "
     "tables with the Lean model replaying the recorded schedule; the debug worker's execution order is compared with runSync.",
     "note": "Trusted: Lean kernel; hand-written model of Submitter/NodeExecution (Sched/Model.lean; Sched/Interleaved.lean for moves inside a poll): one update_status call is atomic w.r.t. "
     "environment moves, dependence is at node granularity as in the code's live branch; "
-    "the observer subclass of Submitter only logs; nested workflows are not modelled.",
+    "the observer subclass of Submitter only logs; nested workflows are not modelled; in the model of pre-existing results "
+    "(Sched/Rerun.lean) polls are atomic and the deletion of an old result coincides with the start of the body "
+    "(_populate_filesystem runs right after the lock is taken).",
     "rule": "case = (workflow graph of 2-6 nodes with splits / inherited splits / duplicate checksums, fail set, max_concurrent, recorded "
     "schedule); distinct by canonical JSON; non-trivial = >= 3 jobs and a schedule policy other than FIFO completion",
     "assumptions": [
@@ -54,10 +67,16 @@ OBLIGATIONS = [
         "C15_precedence_interleaved",
         "C15_sync_hands_out_cut_jobs",
         "C15_new_only_loses_jobs",
+        "C15_precedence_cached",
+        "C15_rerun_sync_unlimited",
+        "C15_rerun_cut_job_keeps_old_result",
+        "C15_errored_result_not_retried",
+        "C15_rerun_stale_read_race",
+        "C15_rerun_readonly_stale_read",
     )
 ]
 LEAN_TARGETS = ["PydraModel.Props.C15"]
-MODEL_TARGETS = ["PydraModel.Sched.Model", "PydraModel.DriverUtil"]
+MODEL_TARGETS = ["PydraModel.Sched.Model", "PydraModel.Sched.Rerun", "PydraModel.DriverUtil"]
 
 
 def spec(case, obs):
@@ -134,21 +153,97 @@ def judge_sync(ctx, cases):
                   what="debug worker execution order" + (": " + why if why else ""))
 
 
+def _n(name, preds=(), **kw):
+    return {"name": name, "preds": list(preds), **kw}
+
+
+def two_cases(rng, n):
+    """submissions over pre-existing results under the controlled worker.  Chains come first: there the scheduler hands out
+    one job at a time, so that neither `max_concurrent` nor a second future can expose a stale result (finding D71) and the
+    verdict must be clean on every tree"""
+    cases = []
+    names = "abcde"
+    for i in range(n):
+        if i % 3 == 0:
+            m = rng.randint(3, 4)
+            shape = {"nodes": [_n(names[j], [names[j - 1]] if j else []) for j in range(m)], "keep_state": []}
+            c = sched.gen_two(rng, shape=shape)
+            c["fail"] = []
+        else:
+            c = sched.gen_two(rng)
+        cases.append(c)
+    return cases
+
+
+def sync_two_cases(rng, n):
+    """the same under the unmodified debug worker (deterministic: compared with the synchronous loop of the model) and,
+    for chains of single jobs (one future at a time: deterministic as well), under the unmodified cf worker"""
+    cases = []
+    names = "abcde"
+    for i in range(n):
+        if i % 2 == 0:
+            c = sched.gen_two(rng)
+            c.update({"worker": "debug", "fail": []})
+        else:
+            m = rng.randint(2, 4)
+            c = sched.gen_two(rng, shape={"nodes": [_n(names[j], [names[j - 1]] if j else []) for j in range(m)], "keep_state": []})
+            c.update({"worker": "cf", "n_procs": rng.choice([1, 2, 3]), "fail": []})
+        c.pop("policy", None)
+        cases.append(c)
+    return cases
+
+
+def judge_sync_two(ctx, cases):
+    obs = sched.run_cases_parallel(cases, ctx.scratch, ctx.pick(4, 6))
+    ans = ctx.driver("Sched", [sched.model_query_two(c, None) for c in cases])
+    for i, (c, o) in enumerate(zip(cases, obs)):
+        if o.get("outcome") in ("HARNESS-EXCEPTION", "CHILD-DIED"):
+            raise core.Infra("sched device failed: " + json.dumps(o)[-600:])
+        log = o.get("bodylog") or []
+        oc = "success" if o["outcome"] == "ok" else (o.get("kind") or o["outcome"])
+        impl = {"outcome": oc, "ran": [e.split()[1] for e in log if e.startswith("S ")], "gens": sched.impl_gens(c, o.get("outputs"))}
+        model = None
+        if c["worker"] == "debug" and ans is not None and "began" in ans[i]:
+            names = [nd["name"] for nd in c["nodes"]]
+            jobs = sched.node_jobs(c)
+            model = {"outcome": ans[i]["outcome"], "ran": [jobs[names[n]][j] for n, j in ans[i]["began"]], "gens": sched.model_gens(c, ans[i])}
+        ok, why = sched.two_oracle(c, o)
+        ctx.count(f"two-pass {c['worker']}:" + oc)
+        ctx.judge(c, impl, model, ok, nontrivial=sched.njobs(c) >= 3, key="sync2:" + json.dumps(c, sort_keys=True),
+                  defect=sched.d71(c, o), what=f"{c['worker']} worker over pre-existing results" + (": " + why if why else ""))
+
+
+_C = sched.load_corpus("C15")
+D71_WITNESSES = [c for c in _C if c.get("witness_of") == "D71"]
+
+
 def correspondence(ctx):
     core.assert_repo_loaded()
-    # corpus first, then generated cases (one batch: one set of child interpreters, one model-driver run)
-    sched.explore(ctx, [dict(c) for c in CORPUS] + gen_cases(ctx.rng, ctx.pick(12, 110)), spec, "C15 precedence / exactly once")
-    judge_sync(ctx, sync_cases(ctx.rng, ctx.pick(6, 70)))
+    # witnesses of the known finding D71 first, then the corpus, then generated cases (one batch: one set of child
+    # interpreters, one model-driver run)
+    nw = len(D71_WITNESSES)
+    res = sched.explore(ctx, [dict(c) for c in D71_WITNESSES] + [dict(c) for c in CORPUS if c.get("witness_of") != "D71"]
+                        + gen_cases(ctx.rng, ctx.pick(8, 100)) + two_cases(ctx.rng, ctx.pick(5, 45)),
+                        spec, "C15 precedence / exactly once", defect=sched.d71)
+    if any(f["id"] == "D71" for f in ctx.known()):
+        still = [v for (_, _, _, _, v) in res[:nw]]
+        ctx.finding("D71", nw > 0 and all(v == "known" for v in still),
+                    "; ".join(f"{c.get('note', '')}: {sched.two_oracle(c, o)[1][:140]}" for (c, o, _, _, _) in res[:nw]))
+    judge_sync(ctx, sync_cases(ctx.rng, ctx.pick(5, 60)))
+    judge_sync_two(ctx, sync_two_cases(ctx.rng, ctx.pick(4, 30)))
 
 
 def search(ctx):
-    sched.explore(ctx, gen_cases(ctx.rng, ctx.pick(40, 300)), spec, "C15 search")
-    judge_sync(ctx, sync_cases(ctx.rng, ctx.pick(20, 150)))
+    sched.explore(ctx, gen_cases(ctx.rng, ctx.pick(35, 260)) + two_cases(ctx.rng, ctx.pick(12, 80)), spec, "C15 search", defect=sched.d71)
+    judge_sync(ctx, sync_cases(ctx.rng, ctx.pick(16, 130)))
+    judge_sync_two(ctx, sync_two_cases(ctx.rng, ctx.pick(8, 50)))
 
 
 def replay(ctx, rec):
     c = rec["case"]
-    if c.get("worker"):
+    if c.get("worker") and c.get("two"):
+        judge_sync_two(ctx, [c])
+    elif c.get("worker"):
         judge_sync(ctx, [c])
     else:
-        sched.explore(ctx, [c], spec, "C15 replay")
+        sched.explore(ctx, [c], spec, "C15 replay", defect=sched.d71)
